@@ -86,7 +86,7 @@ func VP_C14_history() {
 			vpAssume(vpAnd(c0 < 0x80, c1 < 0x80))
 			user = string([]byte{c0, c1})
 			var domain16 []byte
-			if vpBool("names-a-domain-" + is) {
+			if vpBool("clients-name-a-domain") { // (one choice for the whole history: per request it multiplies the paths beyond the budget)
 				domain16 = []byte{'C', 0} // mstsc with CORP\user or .\user
 			}
 			vpWire[text] = vpAuthenticateMsgFull([]byte{c0, 0, c1, 0}, domain16, 0)
